@@ -203,3 +203,444 @@ Example C16_nonvacuous :
   | Err _ => False
   end.
 Proof. vm_compute. repeat split. Qed.
+
+(** ==================================================================================================
+    The interface laws assumed above, proved on the CALLEE models where those exist (Proofs/LawsC16.v):
+    every conjunct of [x_law] is named ([law_*]), [C16_x_law_*] show x_law IS their conjunction, [C16_law_*] prove each on
+    Model/Pair.v, Model/FarmLocked.v, Model/Energy.v / Penalty.v, [C16_closed_*] compose the two; [answer_of_...] is the explicit mapping from the callee's outputs to the answer
+    record the proxy model consumes.  Qualified names throughout. *)
+From MX Require Import Base.Prelude Gen.Params Model.ProxyDex.
+From MX Require Model.MetaStaking Model.Staking Model.StakingPos Proofs.StakingPosProofs.
+From MX Require Model.Pair Model.Farm Model.FarmLocked Model.Energy Model.Penalty Proofs.EnergyProofs Proofs.FarmLockedProofs.
+From MX Require Proofs.LawsC15 Proofs.LawsC16.
+
+Module MS := MX.Model.MetaStaking.
+Module ST := MX.Model.Staking.
+Module SP := MX.Model.StakingPos.
+Module SPP := MX.Proofs.StakingPosProofs.
+Module FL := MX.Model.FarmLocked.
+Module EN := MX.Model.Energy.
+Module ENP := MX.Proofs.EnergyProofs.
+Module L15 := MX.Proofs.LawsC15.
+Module L16 := MX.Proofs.LawsC16.
+
+
+(** ================================================================== C16: [x_law] is the conjunction of the named laws *)
+Theorem C16_x_law_add_liq : forall s u pid p1 p2 extra e s' x, ep_add_liq s u pid p1 p2 extra e = Ok (s', x) ->
+  let lp := fst (fst (v_pair e)) in
+  let used := L16.add_used_locked p1 e in
+  snd (fst (v_pair e)) <= p_amt p1 /\ snd (v_pair e) <= p_amt p2 /\
+  match extra with
+  | [] => x_law x = L16.law_pair_add lp used
+  | _ => exists s1 ta tl, take_wlp_list s u extra = Ok (s1, (ta, tl)) /\
+         x_law x = L16.law_pair_add lp used && L16.law_factory_merge (snd (v_fact e)) (used + tl)
+  end.
+Proof. exact L16.x_law_add_liq. Qed.
+Print Assumptions C16_x_law_add_liq.
+
+Theorem C16_x_law_remove_liq : forall s u pid p e s' x, ep_remove_liq s u pid p e = Ok (s', x) ->
+  x_law x = true \/ x_law x = L16.law_pair_remove (snd (fst (v_pair e))).
+Proof. exact L16.x_law_remove_liq. Qed.
+Print Assumptions C16_x_law_remove_liq.
+
+Theorem C16_x_law_enter_farm : forall s u farm p extra e s' x, ep_enter_farm s u farm p extra e = Ok (s', x) ->
+  match extra with
+  | [] => x_law x = L16.law_farm_enter (snd (v_farm e)) (p_amt p)
+  | _ => exists total its,
+         items_farm_total its = snd (v_farm e) + (items_farm_total (tl its)) /\
+         x_law x = L16.law_farm_enter (snd (v_farm e)) (p_amt p) &&
+                   (L16.law_factory_merge (snd (v_fact e)) total && L16.law_farm_merge (snd (v_fmerge e)) (items_farm_total its))
+  end.
+Proof. exact L16.x_law_enter_farm. Qed.
+Print Assumptions C16_x_law_enter_farm.
+
+Theorem C16_x_law_exit_farm : forall s u farm p e s' x, ep_exit_farm s u farm p e = Ok (s', x) ->
+  x_law x = L16.law_farm_exit (snd (v_farm e)) /\ snd (v_farm e) <= p_amt p.
+Proof. exact L16.x_law_exit_farm. Qed.
+Print Assumptions C16_x_law_exit_farm.
+
+Theorem C16_x_law_claim : forall s u farm p e s' x, ep_claim s u farm p e = Ok (s', x) ->
+  x_law x = L16.law_farm_claim (snd (v_farm e)) (p_amt p).
+Proof. exact L16.x_law_claim. Qed.
+Print Assumptions C16_x_law_claim.
+
+Theorem C16_x_law_merge_wlp : forall s u ps e s' x, ep_merge_wlp s u ps e = Ok (s', x) ->
+  exists s1 ta tl, take_wlp_list s u ps = Ok (s1, (ta, tl)) /\
+    x_law x = L16.law_factory_merge (snd (v_fact e)) tl.
+Proof. exact L16.x_law_merge_wlp. Qed.
+Print Assumptions C16_x_law_merge_wlp.
+
+Theorem C16_x_law_merge_wfm : forall s u farm ps e s' x, ep_merge_wfm s u farm ps e = Ok (s', x) ->
+  exists s1 its total, take_wfm_list s u ps = Ok (s1, its) /\ L16.merge_locked_total s1 its = Some total /\
+    x_law x = L16.law_factory_merge (snd (v_fact e)) total && L16.law_farm_merge (snd (v_fmerge e)) (items_farm_total its)
+              && L16.law_farm_merge_rewards (snd (v_rew e)).
+Proof. exact L16.x_law_merge_wfm. Qed.
+Print Assumptions C16_x_law_merge_wfm.
+
+Theorem C16_x_law_inc_lp : forall s u p e s' x, ep_inc_lp s u p e = Ok (s', x) ->
+  exists s1 k lp, take_wlp_user s u (p_non p) (p_amt p) = Ok (s1, (k, lp)) /\
+    x_law x = L16.law_factory_extend (snd (v_fact e)) lp.
+Proof. exact L16.x_law_inc_lp. Qed.
+Print Assumptions C16_x_law_inc_lp.
+
+Theorem C16_x_law_inc_fm : forall s u p e s' x, ep_inc_fm s u p e = Ok (s', x) ->
+  exists s1 w pp, take_wfm s u (p_non p) (p_amt p) = Ok (s1, (w, pp)) /\
+    if wf_kind w =? 0 then x_law x = L16.law_factory_extend (snd (v_fact e)) pp
+    else exists s2 k lq, release_wlp s1 (wf_pn w) pp = Ok (s2, (k, lq)) /\
+                         x_law x = L16.law_factory_extend (snd (v_fact e)) lq.
+Proof. exact L16.x_law_inc_fm. Qed.
+Print Assumptions C16_x_law_inc_fm.
+
+Theorem C16_x_law_no_call : forall s o s' x, step s o = Ok (s', x) ->
+  match o with SetPair _ _ | SetFarm _ _ _ | XferWlp _ _ _ _ | XferWfm _ _ _ _ => x_law x = true | _ => True end.
+Proof. exact L16.x_law_no_call. Qed.
+Print Assumptions C16_x_law_no_call.
+
+(** ================================================================== C16: the named laws on the callee models *)
+(** pair.addLiquidity *)
+Theorem C16_law_pair_add_pair_model : forall p c a1 a2 m1 m2 p' o eff e,
+  Pair.ep_add p c a1 a2 m1 m2 = Ok (p', o, eff) ->
+  exists e', L16.answer_of_addLiquidity e o = Some e' /\
+    let lp := fst (fst (v_pair e')) in
+    let u1 := snd (fst (v_pair e')) in
+    let u2 := snd (v_pair e') in
+    L16.law_pair_add lp u1 = true /\ L16.law_pair_add lp u2 = true /\
+    0 < lp /\ 0 < u1 <= a1 /\ 0 < u2 <= a2 /\ (Pair.p_S p <> 0 -> m1 <= u1 /\ m2 <= u2) /\
+    v_farm e' = v_farm e /\ v_fmerge e' = v_fmerge e /\ v_rew e' = v_rew e /\ v_fact e' = v_fact e /\
+    v_ok e' = v_ok e /\ v_now e' = v_now e /\ v_energy e' = v_energy e /\ v_unlock e' = v_unlock e.
+Proof. exact L16.pair_add_law. Qed.
+Print Assumptions C16_law_pair_add_pair_model.
+
+(** pair.removeLiquidity *)
+Theorem C16_law_pair_remove_pair_model : forall p c lp m1 m2 p' o eff base_first e,
+  Pair.ep_remove p c lp m1 m2 = Ok (p', o, eff) ->
+  exists e', L16.answer_of_removeLiquidity base_first e o = Some e' /\
+    let rb := snd (fst (v_pair e')) in
+    let ro := snd (v_pair e') in
+    L16.law_pair_remove rb = true /\ 0 < rb /\ 0 < ro /\
+    (exists x1 x2, o = [x1; x2] /\ m1 <= x1 /\ m2 <= x2 /\
+       (rb, ro) = (if base_first then (x1, x2) else (x2, x1))) /\
+    v_farm e' = v_farm e /\ v_fmerge e' = v_fmerge e /\ v_rew e' = v_rew e /\ v_fact e' = v_fact e /\
+    v_ok e' = v_ok e /\ v_now e' = v_now e /\ v_energy e' = v_energy e /\ v_unlock e' = v_unlock e.
+Proof. exact L16.pair_remove_law. Qed.
+Print Assumptions C16_law_pair_remove_pair_model.
+
+(** farm.enterFarm (farm-with-locked-rewards) with [a] farming tokens and no farm tokens *)
+Theorem C16_law_farm_enter_lockedfarm_model : forall ls blk ep c a b ls' o rc e rk,
+  FL.lstep ls (FL.LF (Farm.FEnter blk ep c a [] b)) = Ok (ls', o, rc) ->
+  exists e', L16.answer_of_enterFarm e rk o = Some e' /\
+    L16.law_farm_enter (snd (v_farm e')) a = true /\
+    fst (v_farm e') = Farm.f_next (FL.l_f ls) /\ snd (v_rew e') = b /\ 0 <= snd (v_rew e') /\
+    (snd (v_rew e') = 0 -> rc = []) /\
+    (0 < snd (v_rew e') -> exists ue, rc = [(c, (snd (v_rew e'), ue))] /\ ep < ue) /\
+    v_pair e' = v_pair e /\ v_fmerge e' = v_fmerge e /\ v_fact e' = v_fact e /\
+    v_ok e' = v_ok e /\ v_now e' = v_now e /\ v_energy e' = v_energy e /\ v_unlock e' = v_unlock e.
+Proof. exact L16.lfarm_enter_law. Qed.
+Print Assumptions C16_law_farm_enter_lockedfarm_model.
+
+(** farm.claimRewards on the farm token (n, a) *)
+Theorem C16_law_farm_claim_lockedfarm_model : forall ls blk ep c n a b ls' o rc e rk,
+  FL.lstep ls (FL.LF (Farm.FClaim blk ep c (n, a) [] b)) = Ok (ls', o, rc) ->
+  exists e', L16.answer_of_claimRewards e rk o = Some e' /\
+    L16.law_farm_claim (snd (v_farm e')) a = true /\
+    (snd (v_rew e') <= 0 -> rc = []) /\
+    (0 < snd (v_rew e') -> exists ue, rc = [(c, (snd (v_rew e'), ue))] /\ ep < ue) /\
+    v_pair e' = v_pair e /\ v_fmerge e' = v_fmerge e /\ v_fact e' = v_fact e /\
+    v_ok e' = v_ok e /\ v_now e' = v_now e /\ v_energy e' = v_energy e /\ v_unlock e' = v_unlock e.
+Proof. exact L16.lfarm_claim_law. Qed.
+Print Assumptions C16_law_farm_claim_lockedfarm_model.
+
+(** farm.exitFarm on the farm token (n, a) *)
+Theorem C16_law_farm_exit_lockedfarm_model : forall ls blk ep c n a b ls' o rc e rk,
+  FL.lstep ls (FL.LF (Farm.FExit blk ep c (n, a) b)) = Ok (ls', o, rc) ->
+  exists e', L16.answer_of_exitFarm e rk o = Some e' /\
+    L16.law_farm_exit (snd (v_farm e')) = true /\
+    (exists at0, Farm.find_attrs (Farm.f_attrs (FL.l_f ls)) n = Some at0 /\
+       let f := FL.l_f ls in
+       let pen := if ep - Farm.a_epoch at0 <? Farm.f_minep f then a * Farm.f_pen f / Farm.MAXP else 0 in
+       snd (v_farm e') = a - pen /\ pen <= a /\ (0 <= Farm.f_pen f -> 0 <= pen)) /\
+    (snd (v_rew e') <= 0 -> rc = []) /\
+    (0 < snd (v_rew e') -> exists ue, rc = [(c, (snd (v_rew e'), ue))] /\ ep < ue) /\
+    v_pair e' = v_pair e /\ v_fmerge e' = v_fmerge e /\ v_fact e' = v_fact e /\
+    v_ok e' = v_ok e /\ v_now e' = v_now e /\ v_energy e' = v_energy e /\ v_unlock e' = v_unlock e.
+Proof. exact L16.lfarm_exit_law. Qed.
+Print Assumptions C16_law_farm_exit_lockedfarm_model.
+
+(** the proxy's guard F <= a on the farm's exit answer, in every reachable state of the farm model *)
+Theorem C16_law_farm_exit_bound_lockedfarm_model : forall ls blk ep c n a b ls' lo rc e0 rk e,
+  L16.PenOK (FL.l_f ls) ->
+  FL.lstep ls (FL.LF (Farm.FExit blk ep c (n, a) b)) = Ok (ls', lo, rc) ->
+  L16.answer_of_exitFarm e0 rk lo = Some e ->
+  0 <= snd (v_farm e) <= a.
+Proof. exact L16.exit_farm_guard. Qed.
+Print Assumptions C16_law_farm_exit_bound_lockedfarm_model.
+
+Theorem C16_law_farm_exit_bound_reachable : forall dsc same opts lock ops,
+  L16.PenOK (FL.l_f (FL.lrun (FL.init_locked dsc same opts lock) ops)).
+Proof. exact L16.lrun_pen. Qed.
+Print Assumptions C16_law_farm_exit_bound_reachable.
+
+(** farm.mergeFarmTokens on the farm tokens [ps] *)
+Theorem C16_law_farm_merge_lockedfarm_model : forall ls blk ep c ps b ls' o rc e rk,
+  FL.lstep ls (FL.LF (Farm.FMerge blk ep c ps b)) = Ok (ls', o, rc) ->
+  exists e', L16.answer_of_mergeFarmTokens e rk o = Some e' /\
+    L16.law_farm_merge (snd (v_fmerge e')) (L16.farm_sum ps) = true /\
+    L16.law_farm_merge_rewards (snd (v_rew e')) = true /\
+    snd (v_rew e') = b /\
+    (snd (v_rew e') = 0 -> rc = []) /\
+    (0 < snd (v_rew e') -> exists ue, rc = [(c, (snd (v_rew e'), ue))] /\ ep < ue) /\
+    v_pair e' = v_pair e /\ v_farm e' = v_farm e /\ v_fact e' = v_fact e /\
+    v_ok e' = v_ok e /\ v_now e' = v_now e /\ v_energy e' = v_energy e /\ v_unlock e' = v_unlock e.
+Proof. exact L16.lfarm_merge_law. Qed.
+Print Assumptions C16_law_farm_merge_lockedfarm_model.
+
+(** factory.mergeTokens(original caller u) on the locked payments [ps] = (unlock epoch, amount) *)
+Theorem C16_law_factory_merge_energy_model : forall s u ps s' o e kf,
+  EN.ep_merge s u ps = Ok (s', o) ->
+  exists e', L16.answer_of_mergeTokens e kf o = Some e' /\
+    L16.law_factory_merge (snd (v_fact e')) (ENP.tsum ps) = true /\
+    0 < snd (v_fact e') /\
+    (exists ne me, o = [ne; snd (v_fact e')] /\
+       (forall lo hi, Forall (fun p => lo <= fst p <= hi) ps -> lo <= me <= hi) /\
+       ne = EN.som_upper (EN.opts_of s) (EN.s_now s) me /\
+       EN.som me <= ne <= EN.som me + EPOCHS_PER_MONTH /\
+       (ENP.EnergyInv s -> 0 < u -> EN.s_now s < ne /\ ENP.EnergyInv s')) /\
+    v_pair e' = v_pair e /\ v_farm e' = v_farm e /\ v_fmerge e' = v_fmerge e /\ v_rew e' = v_rew e /\
+    v_ok e' = v_ok e /\ v_now e' = v_now e /\ v_energy e' = v_energy e /\ v_unlock e' = v_unlock e.
+Proof. exact L16.factory_merge_law. Qed.
+Print Assumptions C16_law_factory_merge_energy_model.
+
+(** factory.extendLockPeriod(le, user u) on the locked payment (unlock epoch ep, amount amt) *)
+Theorem C16_law_factory_extend_energy_model : forall s u ep amt le s' o e kf,
+  EN.ep_extend s u ep amt le u = Ok (s', o) ->
+  exists e', L16.answer_of_extendLockPeriod e kf o = Some e' /\
+    L16.law_factory_extend (snd (v_fact e')) amt = true /\
+    0 < amt /\
+    (exists ne, o = [ne; amt] /\ ne = EN.som (EN.s_now s + le) /\ EN.s_now s < ne /\ ep < ne) /\
+    v_pair e' = v_pair e /\ v_farm e' = v_farm e /\ v_fmerge e' = v_fmerge e /\ v_rew e' = v_rew e /\
+    v_ok e' = v_ok e /\ v_now e' = v_now e /\ v_energy e' = v_energy e /\ v_unlock e' = v_unlock e.
+Proof. exact L16.factory_extend_law. Qed.
+Print Assumptions C16_law_factory_extend_energy_model.
+
+(** the same law on the locking model of C09 (Model/Penalty.v) *)
+Theorem C16_law_factory_extend_penalty_model : forall s c ep amt le s' o e kf,
+  Penalty.ep_extend s c ep amt le = Ok (s', o) ->
+  exists e', L16.answer_of_extendLockPeriod e kf o = Some e' /\
+    L16.law_factory_extend (snd (v_fact e')) amt = true /\ 0 < amt /\
+    exists ne, o = [ne; amt] /\ ne = Penalty.start_of_month (Penalty.l_now s + le) /\ Penalty.l_now s < ne /\ ep < ne.
+Proof. exact L16.factory_extend_law_penalty. Qed.
+Print Assumptions C16_law_factory_extend_penalty_model.
+
+(** the energy entry the proxy computes and writes back = the factory's update_after_unlock_any of
+    the entry the factory's view returns *)
+Theorem C16_law_energy_update_energy_model : forall s u e amt r,
+  v_energy e = L16.pe_of (EN.view_entry s u) -> v_now e = EN.s_now s ->
+  burn_energy e amt = Ok r ->
+  (amt = 0 /\ r = None) \/
+  (amt <> 0 /\ exists en', r = Some en' /\
+     EN.update_after_unlock_any (EN.entry_now s u) amt (v_unlock e) (EN.s_now s) = Ok (L16.en_of en')).
+Proof. exact L16.burn_energy_is_factory_update. Qed.
+Print Assumptions C16_law_energy_update_energy_model.
+
+(** ================================================================== C16: composition, nothing assumed *)
+Theorem C16_closed_add_liq : forall pp c m1 m2 pp' po eff e0 e s u pid p1 p2 s' x,
+  Pair.ep_add pp c (p_amt p1) (p_amt p2) m1 m2 = Ok (pp', po, eff) ->
+  L16.answer_of_addLiquidity e0 po = Some e ->
+  ep_add_liq s u pid p1 p2 [] e = Ok (s', x) ->
+  x_law x = true.
+Proof. exact L16.add_liq_closed. Qed.
+Print Assumptions C16_closed_add_liq.
+
+Theorem C16_closed_add_liq_merge : forall pp c m1 m2 pp' po eff fs fu fps fs' fo kf e0 e1 e s u pid p1 p2 extra s' x,
+  Pair.ep_add pp c (p_amt p1) (p_amt p2) m1 m2 = Ok (pp', po, eff) ->
+  EN.ep_merge fs fu fps = Ok (fs', fo) ->
+  L16.answer_of_addLiquidity e0 po = Some e1 -> L16.answer_of_mergeTokens e1 kf fo = Some e ->
+  (forall s1 ta tl, take_wlp_list s u extra = Ok (s1, (ta, tl)) -> ENP.tsum fps = L16.add_used_locked p1 e + tl) ->
+  ep_add_liq s u pid p1 p2 extra e = Ok (s', x) ->
+  x_law x = true.
+Proof. exact L16.add_liq_merge_closed. Qed.
+Print Assumptions C16_closed_add_liq_merge.
+
+Theorem C16_closed_remove_liq : forall pp c lp m1 m2 pp' po eff bf e0 e s u pid p s' x,
+  Pair.ep_remove pp c lp m1 m2 = Ok (pp', po, eff) ->
+  L16.answer_of_removeLiquidity bf e0 po = Some e ->
+  ep_remove_liq s u pid p e = Ok (s', x) ->
+  x_law x = true.
+Proof. exact L16.remove_liq_closed. Qed.
+Print Assumptions C16_closed_remove_liq.
+
+Theorem C16_closed_enter_farm : forall ls blk ep c b ls' lo rc e0 rk e s u farm p s' x,
+  FL.lstep ls (FL.LF (Farm.FEnter blk ep c (p_amt p) [] b)) = Ok (ls', lo, rc) ->
+  L16.answer_of_enterFarm e0 rk lo = Some e ->
+  ep_enter_farm s u farm p [] e = Ok (s', x) ->
+  x_law x = true.
+Proof. exact L16.enter_farm_closed. Qed.
+Print Assumptions C16_closed_enter_farm.
+
+Theorem C16_closed_claim : forall ls blk ep c n b ls' lo rc e0 rk e s u farm p s' x,
+  FL.lstep ls (FL.LF (Farm.FClaim blk ep c (n, p_amt p) [] b)) = Ok (ls', lo, rc) ->
+  L16.answer_of_claimRewards e0 rk lo = Some e ->
+  ep_claim s u farm p e = Ok (s', x) ->
+  x_law x = true.
+Proof. exact L16.claim_closed. Qed.
+Print Assumptions C16_closed_claim.
+
+Theorem C16_closed_exit_farm : forall ls blk ep c n b ls' lo rc e0 rk e s u farm p s' x,
+  FL.lstep ls (FL.LF (Farm.FExit blk ep c (n, p_amt p) b)) = Ok (ls', lo, rc) ->
+  L16.answer_of_exitFarm e0 rk lo = Some e ->
+  ep_exit_farm s u farm p e = Ok (s', x) ->
+  x_law x = true.
+Proof. exact L16.exit_farm_closed. Qed.
+Print Assumptions C16_closed_exit_farm.
+
+Theorem C16_closed_merge_wlp : forall fs fu fps fs' fo e0 kf e s u ps s' x,
+  EN.ep_merge fs fu fps = Ok (fs', fo) ->
+  L16.answer_of_mergeTokens e0 kf fo = Some e ->
+  (forall s1 ta tl, take_wlp_list s u ps = Ok (s1, (ta, tl)) -> ENP.tsum fps = tl) ->
+  ep_merge_wlp s u ps e = Ok (s', x) ->
+  x_law x = true.
+Proof. exact L16.merge_wlp_closed. Qed.
+Print Assumptions C16_closed_merge_wlp.
+
+Theorem C16_closed_merge_items : forall fs fu fps fs' fo ls blk ep c mps b ls' lo rc e0 kf rk e1 e s u farm its s' m amt law,
+  EN.ep_merge fs fu fps = Ok (fs', fo) ->
+  FL.lstep ls (FL.LF (Farm.FMerge blk ep c mps b)) = Ok (ls', lo, rc) ->
+  L16.answer_of_mergeTokens e0 kf fo = Some e1 -> L16.answer_of_mergeFarmTokens e1 rk lo = Some e ->
+  L16.merge_locked_total s its = Some (ENP.tsum fps) -> L16.farm_sum mps = items_farm_total its ->
+  merge_items s u farm its e = Ok (s', (m, amt, law)) ->
+  law = true /\ L16.law_farm_merge_rewards (snd (v_rew e)) = true.
+Proof. exact L16.merge_items_closed. Qed.
+Print Assumptions C16_closed_merge_items.
+
+Theorem C16_closed_merge_wfm : forall fs fu fps fs' fo ls blk ep c mps b ls' lo rc e0 kf rk e1 e s u farm ps s' x,
+  EN.ep_merge fs fu fps = Ok (fs', fo) ->
+  FL.lstep ls (FL.LF (Farm.FMerge blk ep c mps b)) = Ok (ls', lo, rc) ->
+  L16.answer_of_mergeTokens e0 kf fo = Some e1 -> L16.answer_of_mergeFarmTokens e1 rk lo = Some e ->
+  (forall s1 its, take_wfm_list s u ps = Ok (s1, its) ->
+     L16.merge_locked_total s1 its = Some (ENP.tsum fps) /\ L16.farm_sum mps = items_farm_total its) ->
+  ep_merge_wfm s u farm ps e = Ok (s', x) ->
+  x_law x = true.
+Proof. exact L16.merge_wfm_closed. Qed.
+Print Assumptions C16_closed_merge_wfm.
+
+Theorem C16_closed_inc_lp : forall fs fu fep famt le fs' fo e0 kf e s u p s' x,
+  EN.ep_extend fs fu fep famt le fu = Ok (fs', fo) ->
+  L16.answer_of_extendLockPeriod e0 kf fo = Some e ->
+  (forall s1 k lp, take_wlp_user s u (p_non p) (p_amt p) = Ok (s1, (k, lp)) -> famt = lp) ->
+  ep_inc_lp s u p e = Ok (s', x) ->
+  x_law x = true.
+Proof. exact L16.inc_lp_closed. Qed.
+Print Assumptions C16_closed_inc_lp.
+
+Theorem C16_closed_inc_fm : forall fs fu fep famt le fs' fo e0 kf e s u p s' x,
+  EN.ep_extend fs fu fep famt le fu = Ok (fs', fo) ->
+  L16.answer_of_extendLockPeriod e0 kf fo = Some e ->
+  (forall s1 w pp, take_wfm s u (p_non p) (p_amt p) = Ok (s1, (w, pp)) ->
+     if wf_kind w =? 0 then famt = pp
+     else forall s2 k lq, release_wlp s1 (wf_pn w) pp = Ok (s2, (k, lq)) -> famt = lq) ->
+  ep_inc_fm s u p e = Ok (s', x) ->
+  x_law x = true.
+Proof. exact L16.inc_fm_closed. Qed.
+Print Assumptions C16_closed_inc_fm.
+
+
+
+
+
+Definition nv_e0 : env := mkEnv 1 true (0, 0, 0) (0, 0) (0, 0) (0, 0) (0, 0) (mkPEn 0 1 0) 0.
+
+Definition nv_pair : Pair.pair :=
+  Pair.run (Pair.init_pair 300 50 None) [Pair.AddInitial 1 1000000 2000000].
+
+Definition nv_lfarm : FL.lfarm :=
+  FL.lrun (FL.init_locked 1000000 false [360; 720; 1440] 360) (firstn 5 MX.Proofs.FarmLockedProofs.locked_example).
+
+Definition nv_factory : EN.st :=
+  EN.run (EN.init_state (EN.mkCfg [(360, 4000); (720, 6000); (1440, 8000)] 10 0 0) 1)
+         [EN.Lock 1 1000 360 1; EN.Lock 1 3000 720 1].
+
+Example C16_laws_nonvacuous :
+  (* pair.addLiquidity -> addLiquidityProxy (the locked token is the first payment) *)
+  match Pair.ep_add nv_pair 5 500000 400000 1 1 with
+  | Ok (p', o, _) =>
+      match L16.answer_of_addLiquidity nv_e0 o with
+      | Some e =>
+          v_pair e = (200000, 200000, 400000) /\
+          match ep_add_liq init_state 1 0 (TK_LOCKED, 1, 500000) (TK_OTHER, 0, 400000) [] e with
+          | Ok (s1, x) =>
+              x_law x = true /\ x_outs x = [(TK_WLP, 1, 200000); (TK_LOCKED, 1, 300000); (TK_OTHER, 0, 0)] /\
+              (* pair.removeLiquidity -> removeLiquidityProxy *)
+              match Pair.ep_remove p' 5 100000 1 1 with
+              | Ok (_, o2, _) =>
+                  match L16.answer_of_removeLiquidity true nv_e0 o2 with
+                  | Some e2 =>
+                      v_pair e2 = (0, 100000, 200000) /\
+                      match ep_remove_liq s1 1 0 (TK_WLP, 1, 100000) e2 with
+                      | Ok (_, x2) => x_law x2 = true /\ x_outs x2 = [(TK_LOCKED, 1, 100000); (TK_OTHER, 0, 200000)]
+                      | Err _ => False
+                      end
+                  | None => False
+                  end
+              | Err _ => False
+              end
+          | Err _ => False
+          end
+      | None => False
+      end
+  | Err _ => False
+  end /\
+  (* farm.enterFarm -> enterFarmProxy; farm.exitFarm (early: 1 % penalty) -> exitFarmProxy *)
+  match FL.lstep nv_lfarm (FL.LF (Farm.FEnter 12 5 1 100 [] 0)) with
+  | Ok (ls', o, rc) =>
+      match L16.answer_of_enterFarm nv_e0 7 o with
+      | Some e =>
+          v_farm e = (1, 100) /\ rc = [] /\
+          match ep_enter_farm init_state 1 0 (TK_LOCKED, 1, 100) [] e with
+          | Ok (s1, x) =>
+              x_law x = true /\
+              match FL.lstep ls' (FL.LF (Farm.FExit 20 6 1 (1, 100) 0)) with
+              | Ok (_, o2, rc2) =>
+                  match L16.answer_of_exitFarm nv_e0 7 o2 with
+                  | Some e2 =>
+                      snd (v_farm e2) = 99 /\ 0 < snd (v_rew e2) /\ rc2 = [(1, (snd (v_rew e2), 360))] /\
+                      match ep_exit_farm s1 1 0 (TK_WFM, 1, 100) (mkEnv 1 true (0, 0, 0) (v_farm e2) (0, 0) (v_rew e2) (0, 0) (mkPEn 36000 1 100) 360) with
+                      | Ok (_, x2) => x_law x2 = true /\ x_lburn x2 = (1, 1) /\ x_burn x2 = 99
+                      | Err _ => False
+                      end
+                  | None => False
+                  end
+              | Err _ => False
+              end
+          | Err _ => False
+          end
+      | None => False
+      end
+  | Err _ => False
+  end /\
+  (* factory.mergeTokens: 1000 tokens unlocking at 360 + 3000 at 720 -> one token of 4000, unlock epoch in between *)
+  ENP.EnergyInv nv_factory /\
+  match EN.ep_merge nv_factory 1 [(360, 1000); (720, 3000)] with
+  | Ok (_, o) =>
+      match L16.answer_of_mergeTokens nv_e0 3 o with
+      | Some e => v_fact e = (3, 4000) /\ L16.law_factory_merge (snd (v_fact e)) (ENP.tsum [(360, 1000); (720, 3000)]) = true /\
+                  exists ne, o = [ne; 4000] /\ 360 <= ne <= 720
+      | None => False
+      end
+  | Err _ => False
+  end /\
+  (* factory.extendLockPeriod: the 1000 tokens unlocking at 360 re-locked for 720 epochs *)
+  match EN.ep_extend nv_factory 1 360 1000 720 1 with
+  | Ok (_, o) =>
+      match L16.answer_of_extendLockPeriod nv_e0 4 o with
+      | Some e => v_fact e = (4, 1000) /\ o = [720; 1000]
+      | None => False
+      end
+  | Err _ => False
+  end.
+Proof.
+  split; [vm_compute; repeat split; reflexivity|].
+  split; [vm_compute; repeat split; reflexivity|].
+  split; [apply ENP.reach_inv; [vm_compute; reflexivity | lia]|].
+  split; [vm_compute; repeat split; try reflexivity; eexists; split; [reflexivity | split; discriminate]|].
+  vm_compute. repeat split; reflexivity.
+Qed.
